@@ -164,6 +164,11 @@ Definition bucket_of (s : kv) (b : Z) : bucket := default ∅ (s !! b).
 Definition isSome {A} (o : option A) : bool :=
   match o with Some _ => true | None => false end.
 
+(** the whole store as association lists (for comparing stores by computation:
+    normalising a gmap term itself is expensive, its entries are not) *)
+Definition dump (s : kv) : list (Z * list (key * val)) :=
+  map (fun e => (fst e, map_to_list (snd e))) (map_to_list s).
+
 Definition get (b : Z) (k : key) : prog (option val) := Read (fun s => lookup2 s b k).
 Definition has_bucket (b : Z) : prog bool := Read (fun s => isSome (s !! b)).
 (** all entries of a bucket, ascending key order is not needed by any op below *)
